@@ -246,6 +246,29 @@ def run_cell(cell, rec, seed):
                 g = g.reshape(ref.shape)
             rec.close(f"{key}", g, ref, ns=ns, exact=exact, detail=dict(info, style=style),
                       mech=f"moment:{key}:{lay}:{mode}")
+        if not exact and hasattr(p, "normalize"):
+            # history: the measure that was just integrated is normalised *in place* (public
+            # normalize(): ln_beta := -lnZ) and integrated again. The same object now has mass
+            # one, so every polynomial integral is the plain Gaussian moment - nothing remembered
+            # from the queries made while the mass was different may survive
+            try:
+                p.normalize()
+                again = [("integrate", p.integrate(key, **kw)),
+                         ("named", getattr(p, NAMED[key])(**kw))]
+            except Exception as e:
+                rec.evaluations += 1
+                rec.fail(f"raises:after-normalize:{key}:{type(e).__name__}@{core.exc_site(e)}",
+                         dict(info, exc=core.exc_info(e)))
+                again = []
+            msh = mass.reshape((R,) + (1,) * (ref.ndim - 1))
+            for style, got in again:
+                g = np.asarray(got, dtype=float)
+                if g.shape != ref.shape and g.size == ref.size:
+                    g = g.reshape(ref.shape)
+                rec.count("integrals_after_inplace_normalize")
+                rec.close(f"{key} after in-place normalize()", g, ref / msh, ns=ns / msh,
+                          detail=dict(info, style=style, history="integrate, normalize(), integrate"),
+                          mech=f"moment-after-normalize:{key}:{lay}")
         if rep == 0 and R == 1 and D == 2 and mode == "exact" and lay == "shared":
             rec.sample({"case": info, "mu": mu, "Sigma": Sig,
                         "coefficients": {k: np.asarray(v) for k, v in kw.items()}, "oracle": ref})
